@@ -178,6 +178,8 @@ func (g *sgen) dur(allowInf bool) string {
 		return "1h"
 	}
 	switch x := g.r.Intn(40); {
+	case x < 4:
+		return pick(g.r, []string{"3s7µ", "1ms500µ", "2h10µ5ns", "1µ2u", "1w1d1h1m1s1ms1µ1ns", randValidCompositeDuration(g.r)})
 	case x < 24:
 		return pick(g.r, []string{"10s", "1h", "30m", "1h30m", "1500ms", "1d", "2w", "0s", "5u", "5µ", "3ns", "90m", "24h", "7d", "100ms", "1ms", "3600s", "1w2d3h4m5s6ms7u8ns", "52w", "1000000000ns"})
 	case x < 28:
